@@ -548,11 +548,8 @@ func c11WhoMay(c *Ctx) {
 		return cc.IsInvoke() && an.CallIs(cc, PkgSystem, "State", "SetIPv6Autoconf")
 	}) {
 		n++
-		root := s.Fn
-		for root.Parent() != nil {
-			root = root.Parent()
-		}
-		c.R.Check(root == sa, "R-C11-5", c.fname(s.Fn)+":calls-SetIPv6Autoconf", c.fname(s.Fn), c.pos(s.Pos()),
+		okFrom, _ := c.reachedOnlyFrom(s.Fn, func(root *ssa.Function) bool { return root == sa })
+		c.R.Check(okFrom, "R-C11-5", c.fname(s.Fn)+":calls-SetIPv6Autoconf", c.fname(s.Fn), c.pos(s.Pos()),
 			"caller "+c.fname(s.Fn), "only Dialer.setAutoconf and its restore closure change the autoconf sysctl",
 			"another function changes IPv6 autoconfiguration outside the set/restore pairing")
 	}
